@@ -28,7 +28,8 @@ from typing import Any, Callable
 
 VERIF = Path(__file__).resolve().parent.parent
 REPO = Path(os.environ.get("VERIF_REPO", "/repo"))
-EVIDENCE_DIR = VERIF / "evidence"
+# evidence is about /repo: runs against a scratch worktree (seeded changes, refactorings) must not overwrite it
+EVIDENCE_DIR = VERIF / "evidence" if str(REPO) == "/repo" else VERIF / ".work" / "evidence-of-scratch-worktrees"
 REPLAY_DIR = VERIF / "replays"
 WORK_DIR = VERIF / ".work"
 KNOWN_FINDINGS = VERIF / "known_findings.json"
